@@ -37,7 +37,9 @@ META = {
     "design_ref": "DESIGN.md 5/C20, Appendix A.4b, A.6",
 }
 
-DEV = "DEV_OldVmNotAwaited"
+DEV = "DEV_OldVmNotAwaited"            # CompileAndRun
+DEVU = "DEV_UnloadedVmNotAwaited"      # UnloadProgram
+DEVS = (DEV, DEVU)
 PROP_INVS = ["TypeOK", "LockOK", "NoSendToClosed", "OldVersionsClosed", "PerVmInOrder",
              "ExactlyOneVersion", "NeverNeither", "OnlyLoaded",
              "WritesInArrivalOrder", "LastWriteIsLastLine", "NoOverlap"]
@@ -50,21 +52,27 @@ def S(xs):
     return "={" + ", ".join(str(x) for x in sorted(xs)) + "}"
 
 
-def model_cfg(nlines, progs, init, loadable, maxver, maxloads, unloadable, dev, emit="none", invs=PROP_INVS,
+def devmap(devs):
+    return {d: (d in devs) for d in DEVS}
+
+
+def model_cfg(nlines, progs, init, loadable, maxver, maxloads, unloadable, devs, emit="none", invs=PROP_INVS,
               view="View"):
+    consts = {"NLines": nlines, "Progs": S(progs), "InitLoaded": S(init), "Loadable": S(loadable),
+              "MaxVer": maxver, "MaxLoads": maxloads, "Unloadable": S(unloadable),
+              "EofAnyTime": False, "KeepHistory": True, "EmitCases": emit}
+    consts.update(devmap(devs))
     return vlib.cfg_text(
         spec="Spec",
-        constants={"NLines": nlines, "Progs": S(progs), "InitLoaded": S(init), "Loadable": S(loadable),
-                   "MaxVer": maxver, "MaxLoads": maxloads, "Unloadable": S(unloadable),
-                   DEV: dev, "EofAnyTime": False, "KeepHistory": True, "EmitCases": emit},
+        constants=consts,
         invariants=list(invs) + ["Emit"], view=view, check_deadlock=True)
 
 
 # ---------------------------------------------------------------------------
 # direction A
 # ---------------------------------------------------------------------------
-def emit_cases(ctx, label, nlines, init, loadable, maxver, maxloads, unloadable, dev, mode="prefix"):
-    cfg = model_cfg(nlines, [1], init, loadable, maxver, maxloads, unloadable, dev, emit=mode, invs=IMPL_INVS,
+def emit_cases(ctx, label, nlines, init, loadable, maxver, maxloads, unloadable, devs, mode="prefix"):
+    cfg = model_cfg(nlines, [1], init, loadable, maxver, maxloads, unloadable, devs, emit=mode, invs=IMPL_INVS,
                     view="View2" if mode == "prefix" else None)
     r = vlib.tlc(ctx, "Reload", cfg, workers=1 if mode == "prefix" else None, label=label, timeout=1200)
     cases = r.cases
@@ -88,20 +96,62 @@ def harness_cases(cases):
     return out
 
 
-def run_replay(ctx, binary, cases):
-    """Replay cases; a harness process that had to abandon a stuck case is restarted for the rest."""
+class Crash(Exception):
+    def __init__(self, case_id, text):
+        Exception.__init__(self, text)
+        self.case_id, self.text = case_id, text
+
+
+def _run_bin(ctx, binary, todo):
+    """Like vlib.run_harness, but a crash of the process inside mtail code (a Go panic with an mtail frame)
+    while a schedule is being followed is real-code behaviour, not an infrastructure failure."""
+    d = ctx.sub("c20-in")
+    inp = os.path.join(d, "cases.ndjson")
+    with open(inp, "w") as f:
+        for c in todo:
+            f.write(json.dumps(c, separators=(",", ":")) + "\n")
+    env = vlib.goenv()
+    env["VERIF_SEED"] = str(ctx.seed)
+    try:
+        with open(inp) as fin:
+            r = subprocess.run([binary], stdin=fin, env=env, capture_output=True, text=True, timeout=1500, cwd=ctx.scratch)
+    except subprocess.TimeoutExpired:
+        raise vlib.InfraError("c20 harness timed out")
+    recs = []
+    for line in r.stdout.splitlines():
+        if line.startswith("{"):
+            try:
+                recs.append(json.loads(line))
+            except ValueError:
+                pass
+    if r.returncode != 0:
+        done = {x["id"] for x in recs if "id" in x and "trace" in x}
+        rest = [c for c in todo if c["id"] not in done]
+        err = r.stderr[-6000:]
+        if rest and "panic:" in err and "github.com/google/mtail/internal/" in err.replace("mtail/internal/verif", ""):
+            return recs, Crash(rest[0]["id"], err[err.index("panic:"):][:1500])
+        raise vlib.InfraError("c20 harness exited %d:\n%s\n%s" % (r.returncode, r.stdout[-1500:], err))
+    return recs, None
+
+
+def run_replay(ctx, binary, cases, crash_ok=False):
+    """Replay cases; a harness process that had to abandon a stuck case is restarted for the rest.  A crash
+    inside mtail is recorded as the result of that case (ok=False, kind 'crash')."""
     todo = harness_cases(cases)
     results = {}
     while todo:
-        recs = vlib.run_harness(ctx, binary, cases=todo, timeout=1500)
+        recs, crash = _run_bin(ctx, binary, todo)
         got = [r for r in recs if "id" in r and "trace" in r]
         for r in got:
             results[r["id"]] = r
-        if not got:
+        if crash:
+            results[crash.case_id] = {"id": crash.case_id, "ok": False, "trace": [], "writes": [], "procd": [],
+                                      "mismatch": {"kind": "crash", "step": None, "why": crash.text, "got": None, "want": None}}
+        elif not got:
             raise vlib.InfraError("c20 harness returned no result")
-        done = {r["id"] for r in got}
+        done = set(results)
         todo = [c for c in todo if c["id"] not in done]
-        if todo and not any(r.get("abandon") for r in recs):
+        if todo and not crash and not any(r.get("abandon") for r in recs):
             raise vlib.InfraError("c20 harness stopped early without abandoning a case")
     return results
 
@@ -181,7 +231,7 @@ def seg_bounds(seg):
     return nrecv, nprog, max(list(regs.values()) + [1])
 
 
-def validate_segments(ctx, segs, dev, strict, label, invariants=False):
+def validate_segments(ctx, segs, devs, strict, label, invariants=False):
     """Run TraceReload.tla over the segments; returns the set of rejected segment indices (0-based) and the
     TLC result."""
     if not segs:
@@ -197,13 +247,13 @@ def validate_segments(ctx, segs, dev, strict, label, invariants=False):
         a, b, c = seg_bounds(s)
         nl, npg, mv = max(nl, a), max(npg, b), max(mv, c)
     progs = list(range(1, npg + 1))
-    cfg = vlib.cfg_text(
-        spec="TraceSpec",
-        constants={"NLines": nl, "Progs": S(progs), "InitLoaded": "={}", "Loadable": S(progs), "MaxVer": mv,
-                   "MaxLoads": 1000000, "Unloadable": S(progs), DEV: dev, "EofAnyTime": True,
-                   "KeepHistory": False, "EmitCases": "none", "TraceFile": "trace.ndjson",
-                   "SegFile": "segs.ndjson", "Strict": strict, "Guarded": not invariants},
-        invariants=["Reached"] + (["Good"] if invariants else []), view="TView", check_deadlock=False)
+    consts = {"NLines": nl, "Progs": S(progs), "InitLoaded": "={}", "Loadable": S(progs), "MaxVer": mv,
+              "MaxLoads": 1000000, "Unloadable": S(progs), "EofAnyTime": True,
+              "KeepHistory": False, "EmitCases": "none", "TraceFile": "trace.ndjson",
+              "SegFile": "segs.ndjson", "Strict": strict, "Guarded": not invariants}
+    consts.update(devmap(devs))
+    cfg = vlib.cfg_text(spec="TraceSpec", constants=consts,
+                        invariants=["Reached"] + (["Good"] if invariants else []), view="TView", check_deadlock=False)
     r = vlib.tlc(ctx, "TraceReload", cfg, label=label, timeout=1500, expect_violation=invariants,
                  extra_files={"trace.ndjson": "\n".join(lines) + "\n", "segs.ndjson": "\n".join(bounds) + "\n"})
     acc = {c["accept"] for c in r.cases if "accept" in c}
@@ -246,87 +296,122 @@ def go_test_traces(ctx, pkgs, run=None, skip=None, timeout=900):
 
 
 # ---------------------------------------------------------------------------
-def model_stage(ctx, open_dev):
+RELOAD = dict(nlines=3, init=[1], loadable=[1], maxver=2, maxloads=1, unloadable=[])       # a reload at every position
+UNLOAD = dict(nlines=2, init=[], loadable=[1], maxver=2, maxloads=2, unloadable=[1])       # load, unload, load again
+
+
+def model_stage(ctx):
     big = ctx.thorough
     # corrected design: two programs, one loaded at the start, loads/reloads of both, unload of the second
-    r = vlib.tlc(ctx, "Reload", model_cfg(4 if big else 3, [1, 2], [1], [1, 2], 3 if big else 2, 3 if big else 2, [2], False),
-                 label="Reload-2prog", timeout=1500)
-    n1 = 0
+    vlib.tlc(ctx, "Reload", model_cfg(4 if big else 3, [1, 2], [1], [1, 2], 3 if big else 2, 3 if big else 2, [2], ()),
+             label="Reload-2prog", timeout=1500)
     if big:
-        r1 = vlib.tlc(ctx, "Reload", model_cfg(4, [1], [1], [1], 3, 2, [1], False),
+        r1 = vlib.tlc(ctx, "Reload", model_cfg(4, [1], [1], [1], 3, 2, [1], ()),
                       label="Reload-1prog-coverage", timeout=1500, coverage=True)
         if r1.zero_cov:
             raise vlib.InfraError("Reload.tla: actions never taken (vacuous model): %s" % r1.zero_cov)
-        n1 = r1.distinct
-    # the deviation really breaks the property
-    d = vlib.expect_dev_counterexample(ctx, "Reload", model_cfg(3, [1], [1], [1], 2, 1, [], True), DEV)
-    ctx.cov["dev_counterexample"] = {"deviation": DEV, "violated": d.violated}
-    return r.distinct + n1
+    # each deviation really breaks the property
+    ctx.cov["dev_counterexamples"] = {}
+    for dev, k in ((DEV, RELOAD), (DEVU, UNLOAD)):
+        d = vlib.expect_dev_counterexample(
+            ctx, "Reload", model_cfg(k["nlines"], [1], k["init"], k["loadable"], k["maxver"], k["maxloads"],
+                                     k["unloadable"], (dev,)), dev)
+        ctx.cov["dev_counterexamples"][dev] = d.violated
 
 
-def classify_replay(ctx, binary, cases, results, model_dev, what):
+def emit_set(ctx, label, k, devs, mode="prefix"):
+    return emit_cases(ctx, label, k["nlines"], k["init"], k["loadable"], k["maxver"], k["maxloads"], k["unloadable"],
+                      devs, mode=mode)
+
+
+def classify_replay(ctx, binary, cases, results, held, what):
     """Mismatches of the real code against the model it is held to are re-executed from a clean start."""
     byid = {c["id"]: c for c in cases}
     bad = [r for r in results.values() if not r["ok"]]
+    unrepro = None
     for r in bad[:8]:
         c = byid[r["id"]]
         again = run_replay(ctx, binary, [c])[c["id"]]
         mm = r.get("mismatch") or {"kind": "stuck", "why": "the run did not terminate"}
         if again["ok"]:
-            raise vlib.InfraError("replay mismatch not reproduced (%s, case %s): %s" % (what, short(c), mm))
+            unrepro = unrepro or "replay mismatch not reproduced (%s, case [%s]): %s" % (what, short(c), mm)
+            continue
         if mm["kind"] == "timeout" and (again.get("mismatch") or {}).get("kind") == "timeout":
             # the real code cannot follow the schedule: a model/code grain mismatch, not a verdict
-            raise vlib.InfraError("the real code cannot follow a schedule of Reload.tla (%s): %s at step %s: %s" % (
+            raise vlib.InfraError("the real code cannot follow a schedule of Reload.tla (%s): [%s] at step %s: %s" % (
                 what, short(c), mm.get("step"), mm))
-        ctx.violation({"kind": "replay", "model_dev": model_dev, "case": c, "mismatch": mm,
-                       "trace": r["trace"]},
+        ctx.violation({"kind": "replay", "held_to": sorted(held), "case": c, "mismatch": mm, "trace": r["trace"]},
                       "runtime departs from Reload.tla (%s) at step %s of [%s]: %s %s (got %s, model %s)" % (
-                          "with " + DEV if model_dev else "corrected design", mm.get("step"), short(c), mm["kind"],
-                          mm["why"], mm.get("got"), mm.get("want")))
+                          ("with " + "+".join(sorted(held))) if held else "corrected design", mm.get("step"), short(c),
+                          mm["kind"], mm["why"], mm.get("got"), mm.get("want")))
+    if unrepro and not ctx.violations:
+        raise vlib.InfraError(unrepro)
     return len(bad)
+
+
+def probe(ctx, binary, cases, need_unload):
+    """Does the real code follow a schedule that only the deviation allows (the loader completes while the
+    previous VM is held inside a line, the next line is processed by the new VM first)?  Positive evidence
+    only: the schedule is followed to the end and the writes come out of arrival order, twice."""
+    def acts(c):
+        return [s["a"] for s in c["steps"]]
+    cand = sorted([c for c in cases if not c["inorder"] and ("Unload" in acts(c)) == need_unload],
+                  key=lambda c: len(c["steps"]))
+    if not cand:
+        raise vlib.InfraError("the model with the deviation emitted no out-of-order behaviour to probe with")
+    p = dict(cand[0])
+    p["deadline_ms"] = 3000
+    res = None
+    for _ in range(2):
+        res = run_replay(ctx, binary, [p])[p["id"]]
+        if not res["ok"]:
+            return False, p, res
+    return True, p, res
 
 
 def run(ctx):
     binary = vlib.build(ctx, "c20")
-    open_dev = DEV in vlib.open_devs(ctx.prop)
-    model_stage(ctx, open_dev)
+    opened = set(vlib.open_devs(ctx.prop))
+    model_stage(ctx)
 
-    # ---- which model is the real code held to? --------------------------------------------
-    dev_present = False
-    witness = None
-    if open_dev:
-        dcases = emit_cases(ctx, "emit-dev", 3, [1], [1], 2, 1, [], True)
-        cand = sorted([c for c in dcases if not c["inorder"]], key=lambda c: len(c["steps"]))
-        if not cand:
-            raise vlib.InfraError("DEV model emitted no out-of-order behaviour")
-        probe = dict(cand[0])
-        probe["deadline_ms"] = 3000
-        res = run_replay(ctx, binary, [probe])[probe["id"]]
-        if res["ok"]:
-            again = run_replay(ctx, binary, [probe])[probe["id"]]
-            dev_present = again["ok"]
-        if dev_present:
-            witness = {"schedule": short(probe), "writes": res["writes"], "programs": "gauge g1; /^(\\d+)$/ { g1 = $1 * 10 + <version> }"}
-            ctx.known_finding(DEV, "CompileAndRun/UnloadProgram do not wait for the old VM: schedule [%s] on the real runtime "
-                                   "gives gauge writes (line, version) %s - line %d (old version) is applied after line %d "
-                                   "(new version)" % (short(probe), res["writes"][0], res["writes"][0][-1][0],
-                                                      res["writes"][0][-2][0]))
+    # ---- which model is the real code held to? --------------------------------------------------
+    all_reload = emit_set(ctx, "emit-reload-dev", RELOAD, (DEV,))
+    all_unload = emit_set(ctx, "emit-unload-dev", UNLOAD, DEVS)
+    only_unload = emit_set(ctx, "emit-unload-devU", UNLOAD, (DEVU,))     # out of order only through UnloadProgram
+    present, witness = set(), {}
+    for dev, cases, need_unload, site in ((DEV, all_reload, False, "CompileAndRun"), (DEVU, only_unload, True, "UnloadProgram")):
+        ok, p, res = probe(ctx, binary, cases, need_unload)
+        if not ok:
+            vlib.log("%s: the real code does not follow the deviation's witness schedule (%s)" % (dev, res.get("mismatch")))
+            continue
+        present.add(dev)
+        w = res["writes"][0]
+        text = ("%s does not wait for the previous VM: schedule [%s] on the real runtime gives gauge writes (line, version) "
+                "%s - line %d (old VM) is applied after line %d (new VM)" % (site, short(p), w, w[-1][0], w[-2][0]))
+        witness[dev] = {"schedule": short(p), "writes": w}
+        if dev in opened:
+            ctx.known_finding(dev, text)
         else:
-            vlib.log("open finding %s not reproduced by its witness schedule (%s); holding the code to the corrected design"
-                     % (DEV, res.get("mismatch")))
+            ctx.violation({"kind": "replay", "held_to": [], "probe": dev, "case": p, "trace": res["trace"]}, text)
+    if ctx.violations:
+        return
+    for dev in opened - present:
+        if dev in DEVS:
+            vlib.log("open finding %s not reproduced; the code is held to the corrected design there" % dev)
+    held = tuple(sorted(present))
 
     # ---- direction A --------------------------------------------------------------------------
-    sets = []
-    if dev_present:
-        sets.append(("reload, 3 lines (with %s)" % DEV, dcases))
-    else:
-        sets.append(("reload, 3 lines", emit_cases(ctx, "emit-reload", 3, [1], [1], 2, 1, [], False)))
-    sets.append(("fresh load + unload + load again, 2 lines",
-                 emit_cases(ctx, "emit-unload", 2, [], [1], 2, 2, [1], dev_present)))
+    sets = [("reload at every position, 3 lines",
+             all_reload if DEV in present else emit_set(ctx, "emit-reload", RELOAD, ())),
+            ("load + unload + load again, 2 lines",
+             all_unload if present == set(DEVS) else only_unload if present == {DEVU} else
+             emit_set(ctx, "emit-unload", UNLOAD, held))]
     if ctx.thorough:
-        sets.append(("two reloads, 3 lines", emit_cases(ctx, "emit-2reloads", 3, [1], [1], 3, 2, [], dev_present)))
+        sets.append(("two reloads, 3 lines", emit_set(ctx, "emit-2reloads", dict(RELOAD, maxver=3, maxloads=2), held)))
+        sets.append(("reload + unload, 4 lines",
+                     emit_set(ctx, "emit-4lines", dict(RELOAD, nlines=4, maxloads=1, unloadable=[1]), held)))
         sets.append(("every complete behaviour, 2 lines",
-                     emit_cases(ctx, "emit-full", 2, [1], [1], 2, 1, [], dev_present, mode="terminal")))
+                     emit_set(ctx, "emit-full", dict(RELOAD, nlines=2), held, mode="terminal")))
     segs, seg_src = [], []
     nontriv = set()
     for what, cases in sets:
@@ -335,7 +420,7 @@ def run(ctx):
         results = run_replay(ctx, binary, cases)
         if len(results) != len(cases):
             raise vlib.InfraError("harness lost cases (%s)" % what)
-        classify_replay(ctx, binary, cases, results, dev_present, what)
+        classify_replay(ctx, binary, cases, results, held, what)
         ctx.cov["traces_validated_against_impl"] += len(cases)
         ctx.cov["evaluations"] += sum(len(c["steps"]) for c in cases)
         nontriv |= nontrivial_keys(cases)
@@ -354,7 +439,7 @@ def run(ctx):
     nf = 400 if ctx.thorough else 60
     recs = vlib.run_harness(ctx, binary, args=["-mode", "fuzz", "-n", str(nf)], timeout=1200)
     fz = [r for r in recs if r.get("fuzz")]
-    if len(fz) < nf and not any(r.get("abandon") for r in recs):
+    if len(fz) < nf:
         raise vlib.InfraError("fuzz driver returned %d of %d runs" % (len(fz), nf))
     for r in fz:
         if r.get("stuck") or not r["ok"]:
@@ -384,10 +469,9 @@ def run(ctx):
         segs.append(s)
         seg_src.append({"kind": "selftest", "variant": kind})
 
-    # the specification the real code is held to: the corrected design, or - while the finding is open and the
-    # witness schedule reproduces - the design with DEV_OldVmNotAwaited (a superset at trace level)
-    rej, _ = validate_segments(ctx, segs, dev_present, not dev_present,
-                               "trace-dev" if dev_present else "trace-corrected")
+    # the specification the real code is held to: the corrected design, or - while a finding is open and its
+    # witness schedule reproduces - the design with that deviation (a superset at trace level)
+    rej, _ = validate_segments(ctx, segs, held, not held, "trace-held")
     for k, src in enumerate(seg_src):
         if src["kind"] == "selftest" and k not in rej:
             raise vlib.InfraError("TraceReload.tla accepted a trace with a %s (self-test): the trace spec does not bind"
@@ -397,28 +481,25 @@ def run(ctx):
     ctx.cov["trace_events"] = sum(len(s) for s in segs)
     ctx.cov["trace_segments"] = {"replay": sum(1 for s in seg_src if s["kind"] == "replay"), "fuzz": len(fz),
                                  "gotest": len(tsegs), "rejected": len(real_rej)}
-    explained = set()
-    if dev_present and ctx.thorough:
-        # statistic only: how many recorded executions show the deviation (rejected by the corrected design)
-        rej0, _ = validate_segments(ctx, segs[:-2], False, True, "trace-corrected")
-        ctx.cov["trace_segments"]["showing_" + DEV] = len(rej0 - rej)
+    if held and ctx.thorough:
+        # statistic only: how many recorded executions show a deviation (rejected by the corrected design)
+        rej0, _ = validate_segments(ctx, segs[:-2], (), True, "trace-corrected")
+        ctx.cov["trace_segments"]["showing_a_deviation"] = len(rej0 - rej)
     for k in real_rej:
-        if k in explained:
-            continue
         src = seg_src[k]
         # diagnosis: the segment alone, invariants as INVARIANTs
-        _, dr = validate_segments(ctx, [segs[k]], dev_present, not dev_present, "trace-diagnose", invariants=True)
+        _, dr = validate_segments(ctx, [segs[k]], held, not held, "trace-diagnose", invariants=True)
         why = ("invariant %s violated" % dr.violated) if dr and dr.violated else "no behaviour of Reload.tla emits this trace"
         if src["kind"] == "replay":
             c = src["case"]
             again = run_replay(ctx, binary, [c])[c["id"]]
-            rj, _ = validate_segments(ctx, [segment_from_harness(again["trace"])], dev_present, not dev_present, "trace-recheck")
+            rj, _ = validate_segments(ctx, [segment_from_harness(again["trace"])], held, not held, "trace-recheck")
             if not rj:
                 raise vlib.InfraError("trace rejection not reproduced for schedule [%s]" % short(c))
-        ctx.violation({"kind": "trace", "source": {k2: v for k2, v in src.items() if k2 != "case"},
-                       "schedule": short(src["case"]) if "case" in src else None, "events": segs[k][:400], "why": why},
+        ctx.violation({"kind": "trace", "held_to": sorted(held), "source": {k2: v for k2, v in src.items() if k2 != "case"},
+                       "schedule": short(src["case"]) if "case" in src else None, "events": segs[k][:600], "why": why},
                       "a recorded execution of the real runtime is not a behaviour of Reload.tla%s: %s (%s)" % (
-                          (" even with " + DEV) if dev_present else "", why, src["kind"]))
+                          (" even with " + "+".join(held)) if held else "", why, src["kind"]))
         if len(ctx.violations) >= 3:
             break
 
@@ -426,10 +507,11 @@ def run(ctx):
     ctx.cov["exhaustive"] = True
     ctx.cov["rule"] = ("distinct (control state, action) pairs of Reload.tla executed on the real runtime under blocking gates "
                        "while a load/unload is in progress or more than one version of the program is alive; every "
-                       "transition of the 1-program state graph (3 lines, reload / load+unload+load; thorough: two reloads "
-                       "and every complete 2-line behaviour) is replayed")
+                       "transition of the 1-program state graph (3 lines x reload at every position; load+unload+load; "
+                       "thorough: two reloads, 4 lines, and every complete 2-line behaviour) is replayed")
     ctx.cov["constants"] = {"replayed": [w for w, _ in sets], "model": "2 programs x %d lines, MaxVer %d" % (
-        4 if ctx.thorough else 3, 3 if ctx.thorough else 2), "fuzz_runs": nf, "held_to": "corrected design + " + DEV if dev_present else "corrected design"}
+        4 if ctx.thorough else 3, 3 if ctx.thorough else 2), "fuzz_runs": nf,
+        "held_to": "corrected design" + "".join(" + " + d for d in held)}
     ctx.assumptions += [
         "Go sync.RWMutex: Unlock grants pending readers, RUnlock of the last reader grants the pending writer, a pending writer "
         "excludes new readers; unbuffered channel send/receive rendezvous (modelled as eager hand-over)",
@@ -443,16 +525,22 @@ def run(ctx):
 def replay(ctx, path):
     blob = json.load(open(path))["case"]
     binary = vlib.build(ctx, "c20")
-    dev = bool(blob.get("model_dev"))
+    held = tuple(blob.get("held_to") or ())
     if blob.get("kind") == "replay":
         c = blob["case"]
         r = run_replay(ctx, binary, [c])[c["id"]]
-        if not r["ok"]:
+        if "probe" in blob:
+            if r["ok"]:
+                ctx.violation(blob, "reproduced: the real runtime follows the schedule that only %s allows; writes %s" % (
+                    blob["probe"], r["writes"]))
+            else:
+                print("replay: the deviation's schedule is not followed (not reproduced): %s" % r.get("mismatch"))
+        elif not r["ok"]:
             ctx.violation(blob, "reproduced: %s" % r.get("mismatch"))
         else:
             print("replay: the schedule is followed as the model predicts (not reproduced)")
     else:
-        rj, dr = validate_segments(ctx, [blob["events"]], DEV in vlib.open_devs(ctx.prop), False, "trace-replay")
+        rj, _ = validate_segments(ctx, [blob["events"]], held, not held, "trace-replay")
         if rj:
             ctx.violation(blob, "reproduced: recorded trace rejected by TraceReload.tla")
         else:
